@@ -1,173 +1,289 @@
+// C18 correspondence harness: pkg/provisioning/bootguard (sign / verify / binding /
+// private-key wrapping) against Model/Manifest.v, plus the finite sweeps that carry
+// the assurance for the clauses resting on third-party crypto and codecs.
 package main
 
 import (
 	"bytes"
-	"crypto/rand"
 	"crypto/rsa"
 	"fmt"
+	"os"
+	"time"
 
 	"github.com/9elements/converged-security-suite/v2/pkg/provisioning/bootguard"
-	"github.com/linuxboot/fiano/pkg/intel/metadata/bg"
 	"github.com/linuxboot/fiano/pkg/intel/metadata/bg/bgbootpolicy"
-	"github.com/linuxboot/fiano/pkg/intel/metadata/bg/bgkey"
 	"github.com/linuxboot/fiano/pkg/intel/metadata/cbnt"
 	"github.com/linuxboot/fiano/pkg/intel/metadata/cbnt/cbntbootpolicy"
-	"github.com/linuxboot/fiano/pkg/intel/metadata/cbnt/cbntkey"
-	"github.com/linuxboot/fiano/pkg/intel/metadata/common/bgheader"
+	log "github.com/sirupsen/logrus"
+	"verifharness/gal"
 )
 
-func must(err error) {
-	if err != nil {
-		panic(err)
-	}
+const header = "From CSS Require Import Lib.Base Lib.Cases Model.Manifest Model.ManifestCases."
+
+// finding ids (KNOWN_FINDINGS.json)
+const (
+	fBg10Cut     = "C18-bg10-signbpm-cut"
+	fNormalised  = "C18-verify-reserialised-normalised-fields"
+	fHashLabel   = "C18-cbnt-sign-hash-label"
+	fNullPkHash  = "C18-cbnt-km-null-pkhash"
+	fBindingOpen = "C18-binding-failopen"
+)
+
+type signedFile struct {
+	name     string
+	gen, doc int
+	file     []byte
+	lay      layout
+	desc     shapeDesc
+	verifies bool
+	by       string // "suite" or "harness" (BG 1.0 BPM signed over the verified range by the harness)
 }
 
-func sweep(name string, file []byte, verify func([]byte) error) {
-	acc := []int{}
-	for i := 0; i < len(file)*8; i++ {
-		m := append([]byte(nil), file...)
-		m[i/8] ^= 1 << (i % 8)
-		var err error
-		func() {
-			defer func() {
-				if r := recover(); r != nil {
-					err = fmt.Errorf("panic %v", r)
+type run struct {
+	c      *gal.Ctx
+	keys   map[string]*rsa.PrivateKey
+	signed []*signedFile
+	known  map[string]int
+}
+
+func schemeID(s string) int {
+	if s == "RSAPSS" {
+		return algRSAPSS
+	}
+	return algRSASSA
+}
+
+func schemeHashOf(scheme int) int {
+	if scheme == algRSAPSS {
+		return algSHA384
+	}
+	return algSHA256
+}
+
+func hashID(s string) int {
+	switch s {
+	case "SHA1":
+		return algSHA1
+	case "SHA256":
+		return algSHA256
+	case "SHA384":
+		return algSHA384
+	case "SM3":
+		return algSM3
+	case "AlgNull":
+		return algNull
+	}
+	return 0
+}
+
+func docName(d int) string {
+	if d == 0 {
+		return "KM"
+	}
+	return "BPM"
+}
+
+// addVerifyCase: NewKM/NewBPM + VerifyKM/VerifyBPM on `file`, with the tables of
+// the model filled from fiano directly. Returns the suite's outcome.
+func (r *run) addVerifyCase(kind string, doc int, file []byte, descr map[string]interface{}, nontrivial bool) (int, int) {
+	out, _ := suiteVerifyFile(doc, file)
+	var pp *pman
+	var vt []vtEntry
+	b, err := func() (b *bootguard.BootGuard, err error) {
+		p, _ := recoverCall(func() { b, err = newDoc(doc, file) })
+		if p {
+			return nil, fmt.Errorf("panic")
+		}
+		return
+	}()
+	if err == nil && b != nil {
+		var pm pman
+		var perr error
+		p, _ := recoverCall(func() { pm, perr = pmanOf(b, doc) })
+		if !p && perr == nil {
+			pp = &pm
+			seen := map[string]bool{}
+			add := func(buf []byte, n int) {
+				if n < 0 || n > len(buf) {
+					n = len(buf)
 				}
-			}()
-			err = verify(m)
-		}()
-		if err == nil {
-			acc = append(acc, i)
+				k := string(buf[:n])
+				if seen[k] {
+					return
+				}
+				seen[k] = true
+				ok := false
+				recoverCall(func() { ok = ksVerify(b, doc, buf[:n]) })
+				vt = append(vt, vtEntry{append([]byte(nil), buf[:n]...), ok})
+			}
+			add(pm.ser, pm.keysig)
+			add(pm.ser, pm.pmse)
+			add(pm.ser, pm.pmseks)
+			add(file, pm.keysig)
+			add(file, pm.pmse)
 		}
 	}
-	fmt.Printf("%s: len %d, accepted mutants: %d: ", name, len(file), len(acc))
-	last := -2
-	for _, a := range acc {
-		if a/8 != last {
-			fmt.Printf(" byte%d:", a/8)
-			last = a / 8
-		}
-		fmt.Printf("%d", a%8)
+	descr["doc"] = docName(doc)
+	descr["outcome"] = out
+	if pp != nil && len(pp.ser) > 4096 {
+		// a truncated/garbage file whose count fields make fiano allocate thousands of
+		// empty entries: the literal would be megabytes; the oracle still sees the outcome
+		r.c.Count("verify/oversized-reserialisation-not-shipped")
+		return out, -1
 	}
-	fmt.Println()
+	lit := fmt.Sprintf("CVerifyFile %d %s %s %s %s", doc, gal.Bytes(file), optPman(pp), vtLit(vt), obsUnit(out))
+	idx := r.c.Add(kind, lit, descr, nontrivial)
+	return out, idx
 }
 
-func verifyKM(b []byte) error {
-	g, err := bootguard.NewKM(bytes.NewReader(b))
-	if err != nil {
-		return err
+// signOne runs SignKM/SignBPM of the suite on b and checks the first clause.
+func (r *run) signOne(b *bootguard.BootGuard, doc int, scheme, hashName, keyName string, desc shapeDesc, fullSearch bool, name string) *signedFile {
+	c := r.c
+	key := r.keys[keyName]
+	gen := genOf(b)
+	desc["scheme"], desc["hash"], desc["key"], desc["keybits"] = scheme, hashName, keyName, key.N.BitLen()
+	// what SignKM/SignBPM serialise first (prep): BPM signature element reset
+	if doc == 1 {
+		if gen == 1 {
+			b.VData.BGbpm.PMSE = *bgbootpolicy.NewSignature()
+		} else {
+			b.VData.CBNTbpm.PMSE = *cbntbootpolicy.NewSignature()
+		}
 	}
-	return g.VerifyKM()
+	pre, err := pmanOf(b, doc)
+	if err != nil {
+		c.OracleFail(-1, "cannot serialise the constructed manifest: "+err.Error(), "harness", desc)
+		return nil
+	}
+	var out []byte
+	var serr error
+	p, pmsg := recoverCall(func() {
+		if doc == 0 {
+			out, serr = b.SignKM(scheme, key)
+		} else {
+			out, serr = b.SignBPM(scheme, hashName, key)
+		}
+	})
+	if p || serr != nil {
+		c.OracleFail(-1, fmt.Sprintf("Sign%s failed on a supported key/scheme: panic=%v %s err=%v", docName(doc), p, pmsg, serr), "bootguard.Sign"+docName(doc), desc)
+		return nil
+	}
+	// independent layout of the produced file
+	var ksOff, signedEnd int
+	switch {
+	case doc == 0:
+		ksOff = pre.keysig
+		signedEnd = ksOff
+	case gen == 1:
+		ksOff = pre.pmse + 9 // "__PMSG__" + version
+		signedEnd = pre.pmse
+	default:
+		ksOff = pre.pmse + 12 // "__PMSG__" + version + var0 + element size
+		signedEnd = ksOff
+	}
+	lay, lerr := parseLayout(out, gen, doc, signedEnd, ksOff)
+	if lerr != nil {
+		c.OracleFail(-1, "signed file does not have the documented layout: "+lerr.Error(), "bootguard.Sign"+docName(doc), desc)
+		return nil
+	}
+	sch := schemeID(scheme)
+	lens := signedLens(pre.ser, out, lay, schemeHashOf(sch), []int{signedEnd, pre.keysig, pre.pmse, pre.pmseks}, fullSearch)
+	sl := -1
+	if len(lens) == 1 {
+		sl = lens[0]
+	}
+	req := hashID(hashName)
+	lit := fmt.Sprintf("CSign %d %d %s %d %d %d %d", gen, doc, pman{nil, pre.keysig, pre.pmse, pre.pmseks, pre.pkhash}.lit(), sch, req, sl, lay.hashAlg)
+	d2 := shapeDesc{}
+	for k, v := range desc {
+		d2[k] = v
+	}
+	d2["signed_len"], d2["stored_hash"], d2["expected_signed_len"] = sl, lay.hashAlg, signedEnd
+	idx := c.Add(fmt.Sprintf("sign/gen%d-%s", gen, docName(doc)), lit, d2, true)
+
+	sf := &signedFile{name: name, gen: gen, doc: doc, file: out, lay: lay, desc: d2, by: "suite"}
+	vout, _ := r.addVerifyCase(fmt.Sprintf("verify/signed-gen%d-%s", gen, docName(doc)), doc, out, map[string]interface{}{"file": "suite-signed " + name, "shape": desc}, true)
+	sf.verifies = vout == oOk
+	raw := lay.rawValid(out)
+	input := map[string]interface{}{"shape": d2, "signed_file_hex": hexs(out)}
+	switch {
+	case vout == oOk && raw && sl == signedEnd:
+		c.OracleOK()
+	case vout == oOk && !raw:
+		c.OracleFail(idx, "suite accepts its own signed file although the stored signature is not valid (crypto/rsa) for the stored signed portion", "bootguard.Verify"+docName(doc), input)
+	case gen == 1 && doc == 1 && sl == pre.pmseks && sl != signedEnd && vout == oErr:
+		r.known[fBg10Cut]++
+		c.OracleFailKnown(idx, fBg10Cut, fmt.Sprintf("BG 1.0 BPM signed by the suite does not verify with the suite: SignBPM signed the first %d bytes (PMSE.KeySignatureOffset()), VerifyBPM checks the first %d (PMSEOffset())", sl, signedEnd), "bootguard.SignBPM", input)
+	case gen == 2 && vout == oErr && sl == signedEnd && lay.hashAlg != schemeHashOf(sch) && pre.pkhashNullKM(doc) == false:
+		r.known[fHashLabel]++
+		c.OracleFailKnown(idx, fHashLabel, fmt.Sprintf("CBnT %s signed with %s/%s does not verify: the signature is over the %s digest the scheme hard-wires but Signature.HashAlg says %#x", docName(doc), scheme, hashName, map[int]string{algSHA256: "SHA256", algSHA384: "SHA384"}[schemeHashOf(sch)], lay.hashAlg), "bootguard.Sign"+docName(doc), input)
+	case gen == 2 && doc == 0 && vout == oErr && sl == signedEnd && pre.pkhashNullKM(doc):
+		r.known[fNullPkHash]++
+		c.OracleFailKnown(idx, fNullPkHash, "CBnT KM with a null PubKeyHashAlg does not verify after SignKM: SetSignature overwrites the (signed) PubKeyHashAlg field after the signature was computed", "bootguard.SignKM", input)
+	default:
+		c.OracleFail(idx, fmt.Sprintf("manifest signed by the suite does not verify with the suite (outcome %d, signature covers %v bytes, expected %d, raw-valid %v)", vout, lens, signedEnd, raw), "bootguard.Sign"+docName(doc)+"/Verify"+docName(doc), input)
+	}
+	r.signed = append(r.signed, sf)
+	return sf
 }
-func verifyBPM(b []byte) error {
-	g, err := bootguard.NewBPM(bytes.NewReader(b))
-	if err != nil {
-		return err
-	}
-	return g.VerifyBPM()
+
+func (p pman) pkhashNullKM(doc int) bool {
+	return doc == 0 && (p.pkhash == algNull || p.pkhash == 0)
 }
 
 func main() {
-	kA, _ := rsa.GenerateKey(rand.Reader, 2048)
-	kB, _ := rsa.GenerateKey(rand.Reader, 2048)
-	// ---- BG 1.0 KM
-	{
-		var b bootguard.BootGuard
-		b.Version = bgheader.Version10
-		b.VData.BGkm = bgkey.NewManifest()
-		b.VData.BGkm.KMSVN = 3
-		b.VData.BGkm.KMID = 7
-		must(b.GetBPMPubHash(kB.Public(), "SHA256"))
-		must(b.VData.BGkm.KeyAndSignature.Key.SetPubKey(kA.Public()))
-		un, err := b.WriteKM()
-		must(err)
-		fmt.Println("bg km unsigned len", len(un), "kso", b.VData.BGkm.KeyAndSignatureOffset())
-		g, err := bootguard.NewKM(bytes.NewReader(un))
-		must(err)
-		signed, err := g.SignKM("RSASSA", kA)
-		must(err)
-		fmt.Println("bg km verify:", verifyKM(signed))
-		sweep("bgkm", signed, verifyKM)
-		// BPM
-		var p bootguard.BootGuard
-		p.Version = bgheader.Version10
-		p.VData.BGbpm = bgbootpolicy.NewManifest()
-		p.VData.BGbpm.BPMH = *bgbootpolicy.NewBPMH()
-		p.VData.BGbpm.BPMSVN = 2
-		p.VData.BGbpm.SE = make([]bgbootpolicy.SE, 1)
-		p.VData.BGbpm.SE[0] = *bgbootpolicy.NewSE()
-		p.VData.BGbpm.SE[0].Digest.HashAlg = bg.AlgSHA256
-		p.VData.BGbpm.SE[0].Digest.HashBuffer = make([]byte, 32)
-		p.VData.BGbpm.SE[0].IBBSegments = []bgbootpolicy.IBBSegment{{Flags: 0, Base: 0xfff00000, Size: 0x1000}}
-		unb, err := p.WriteBPM()
-		must(err)
-		fmt.Println("bg bpm unsigned len", len(unb), "pmseoff", p.VData.BGbpm.PMSEOffset(), "ksoff", p.VData.BGbpm.PMSE.KeySignatureOffset())
-		gp := &p
-		_ = unb
-		{
-			sb, err := gp.SignBPM("RSASSA", "SHA256", kB)
-			fmt.Println("SignBPM err", err, len(sb))
-			if err == nil {
-				fmt.Println("bg bpm verify:", verifyBPM(sb))
-				sweep("bgbpm", sb, verifyBPM)
-				both, err := bootguard.NewBPMAndKM(bytes.NewReader(sb), bytes.NewReader(signed))
-				must(err)
-				ok, err := both.BPMKeyMatchKMHash()
-				fmt.Println("match:", ok, err)
+	log.SetOutput(os.Stderr)
+	log.SetLevel(log.PanicLevel) // the default: branches log an error per call
+	c := gal.New("C18", header, 40)
+	defer func() {
+		if rec := recover(); rec != nil {
+			fmt.Println("harness panic:", rec)
+			panic(rec)
+		}
+	}()
+	r := &run{c: c, keys: map[string]*rsa.PrivateKey{}, known: map[string]int{}}
+	t0 := time.Now()
+	r.makeKeys()
+	c.Rep.Extra["keygen_seconds"] = time.Since(t0).Seconds()
+
+	r.signAll()
+	r.artifacts()
+	r.sweeps()
+	r.binding()
+	r.passwords()
+	r.detectAndStruct()
+
+	c.Rep.Extra["known_finding_hits"] = r.known
+	c.Rep.Extra["seconds"] = time.Since(t0).Seconds()
+	c.Finish("BG 1.0 and CBnT 2.0 KM/BPM built with fiano constructors + bootguard.NewVData/GetBPMPubHash (random SVN/ID/revision/flags, 0-4 KM hashes, 0-6 IBB segments, 1-3 digests, optional TXT/PCD/PM/reserved elements), signed by SignKM/SignBPM with RSA-2048 (thorough: and 3072) x {RSASSA,RSAPSS} x {SHA256,SHA384,(SHA1,SM3,AlgNull)} and verified by NewKM/NewBPM+VerifyKM/VerifyBPM; " +
+		"single-bit mutants of signed files (quick: all bits of 3 files per kind, stride elsewhere; thorough: all bits of every file); KM x BPM key pairs for KMHasBPMHash/BPMKeyMatchKMHash; 13x13 password pairs, bit flips and truncations of the wrapped key; DetectBGV and unknown-Version cases. " +
+		"A case is non-trivial when it reaches a signature/hash/AEAD decision; distinct = distinct Gallina literal. Sweeps are oracle checks; a sample of mutants becomes correspondence cases.")
+}
+
+// the embedded test material shipped with the repository
+func (r *run) artifacts() {
+	c := r.c
+	repo := os.Getenv("VERIF_REPO")
+	if repo == "" {
+		repo = "/repo"
+	}
+	for _, n := range []string{"km.signed", "km.unsigned"} {
+		data, err := os.ReadFile(repo + "/pkg/provisioning/bootguard/test_artifacts/" + n)
+		if err != nil {
+			c.Count("artifact-missing")
+			continue
+		}
+		out, _ := r.addVerifyCase("verify/artifact", 0, data, map[string]interface{}{"file": "test_artifacts/" + n}, true)
+		c.Rep.Extra["artifact_"+n] = out
+		if n == "km.signed" && out == oOk {
+			// a verifying KM of unknown provenance: usable for the tamper sweep
+			if b, err := bootguard.NewKM(bytes.NewReader(data)); err == nil {
+				pm, _ := pmanOf(b, 0)
+				if lay, err := parseLayout(data, genOf(b), 0, pm.keysig, pm.keysig); err == nil && lay.rawValid(data) {
+					r.signed = append(r.signed, &signedFile{name: "artifact-km.signed", gen: genOf(b), doc: 0, file: data, lay: lay, desc: shapeDesc{"file": "test_artifacts/km.signed"}, verifies: true, by: "artifact"})
+				}
 			}
 		}
 	}
-	// ---- CBnT KM
-	for _, sa := range []string{"RSASSA", "RSAPSS"} {
-		for _, ha := range []string{"SHA256", "SHA384", "SHA1", "AlgNull"} {
-			var b bootguard.BootGuard
-			b.Version = bgheader.Version20
-			b.VData.CBNTkm = cbntkey.NewManifest()
-			b.VData.CBNTkm.KMSVN = 3
-			b.VData.CBNTkm.KMID = 7
-			b.VData.CBNTkm.PubKeyHashAlg, _ = cbnt.GetAlgFromString(ha)
-			must(b.GetBPMPubHash(kB.Public(), "SHA256"))
-			must(b.VData.CBNTkm.KeyAndSignature.Key.SetPubKey(kA.Public()))
-			un, err := b.WriteKM()
-			must(err)
-			g, err := bootguard.NewKM(bytes.NewReader(un))
-			must(err)
-			signed, err := g.SignKM(sa, kA)
-			if err != nil {
-				fmt.Println("cbnt km", sa, ha, "sign err", err)
-				continue
-			}
-			fmt.Println("cbnt km", sa, ha, "verify:", verifyKM(signed))
-			if sa == "RSASSA" && ha == "SHA256" {
-				sweep("cbntkm", signed, verifyKM)
-			}
-			var p bootguard.BootGuard
-			p.Version = bgheader.Version20
-			p.VData.CBNTbpm = cbntbootpolicy.NewManifest()
-			p.VData.CBNTbpm.SE = make([]cbntbootpolicy.SE, 1)
-			p.VData.CBNTbpm.SE[0] = *cbntbootpolicy.NewSE()
-			p.VData.CBNTbpm.SE[0].DigestList.List = []cbnt.HashStructure{{HashAlg: cbnt.AlgSHA256, HashBuffer: make([]byte, 32)}}
-			p.VData.CBNTbpm.SE[0].DigestList.Size = 1
-			p.VData.CBNTbpm.SE[0].IBBSegments = []cbntbootpolicy.IBBSegment{{Flags: 0, Base: 0xfff00000, Size: 0x1000}}
-			p.VData.CBNTbpm.TXTE = cbntbootpolicy.NewTXT()
-			unb, err := p.WriteBPM()
-			must(err)
-			gp := &p
-			gp2, err := bootguard.NewBPM(bytes.NewReader(unb[:p.VData.CBNTbpm.KeySignatureOffset]))
-			fmt.Println("cbnt NewBPM(cut):", err, gp2 != nil)
-			sb, err := gp.SignBPM(sa, ha, kB)
-			if err != nil {
-				fmt.Println("cbnt bpm", sa, ha, "sign err", err)
-				continue
-			}
-			fmt.Println("cbnt bpm", sa, ha, "verify:", verifyBPM(sb))
-			if sa == "RSASSA" && ha == "SHA256" {
-				sweep("cbntbpm", sb, verifyBPM)
-				both, err := bootguard.NewBPMAndKM(bytes.NewReader(sb), bytes.NewReader(signed))
-				must(err)
-				ok, err := both.BPMKeyMatchKMHash()
-				fmt.Println("match:", ok, err)
-			}
-		}
-	}
+	_ = cbnt.AlgNull
 }
